@@ -367,6 +367,52 @@ def check_config(ctx: Ctx, name, mk, opts, wd, rec: Recorder):
     return measured
 
 
+def adaptor_roundtrip_mixed_dtype(ctx: Ctx):
+    """Checkpoint.tla's per-component round trip (save -> JSON -> load into a freshly built object = identity) for the mass-matrix
+    adaptor when the parameters' dtype is not the process default (float64 parameters in a library session that never called
+    set_default_dtype, or --dtype float32 with explicitly typed tensors): every tensor of the estimator keeps dtype and value."""
+    import torch
+    from torchtree import Parameter
+    from torchtree.inference.hmc.adaptation import MassMatrixAdaptor
+    prev = torch.get_default_dtype()
+    try:
+        for default in (torch.float32, torch.float64):
+            for pdt in (torch.float64, torch.float32):
+                for dense in (False, True):
+                    torch.set_default_dtype(default)
+
+                    def build():
+                        x = Parameter("x", torch.tensor([0.3, -0.2, 0.8], dtype=pdt))
+                        m = Parameter("m", torch.eye(3, dtype=pdt) if dense else torch.ones(3, dtype=pdt))
+                        return x, MassMatrixAdaptor("a", [x], m, update_frequency=5)
+                    x, a = build()
+                    g = torch.Generator().manual_seed(3)
+                    for i in range(12):
+                        x.tensor = torch.randn(3, generator=g, dtype=torch.float64).to(pdt)
+                        a.learn(torch.tensor(0.8), i, True)
+                    sd = json.loads(json.dumps(a.state_dict()))
+                    _, b = build()
+                    ctx.add("adaptor_roundtrips_mixed_dtype")
+                    tag = f"default {str(default)[6:]}, parameters {str(pdt)[6:]}, {'dense' if dense else 'diagonal'}"
+                    try:
+                        b.load_state_dict(sd)
+                    except Exception as e:
+                        ctx.violation(f"C17:mass-adaptor:roundtrip-raises:{'mixed' if default != pdt else 'uniform'}-dtype", f"{tag}: load_state_dict raised {type(e).__name__}: {e}", {"case": tag})
+                        continue
+                    for attr in ("_mean", "_variance"):
+                        u, v = getattr(a.variance_estimator, attr), getattr(b.variance_estimator, attr)
+                        if u.dtype != v.dtype or u.shape != v.shape or not torch.equal(u, v):
+                            diff = float((u.double() - v.double()).abs().max()) if u.shape == v.shape else float("nan")
+                            ctx.violation(f"C17:mass-adaptor:restore:variance_estimator.{attr}:{'mixed' if default != pdt else 'uniform'}-dtype",
+                                          f"{tag}: after 12 learn() calls, state_dict -> JSON -> load_state_dict into a fresh adaptor gives {attr} of dtype {v.dtype} "
+                                          f"(was {u.dtype}), largest difference {diff:.3g}", {"case": tag, "attribute": attr})
+                    if b.variance_estimator.samples != a.variance_estimator.samples or b._call_counter != a._call_counter:
+                        ctx.violation("C17:mass-adaptor:restore:counters", f"{tag}: samples / call counter {b.variance_estimator.samples} / {b._call_counter} after restore, "
+                                      f"{a.variance_estimator.samples} / {a._call_counter} before", {"case": tag})
+    finally:
+        torch.set_default_dtype(prev)
+
+
 def run_tlc(ctx, name, measured, n=4, f=2):
     d = tlc.workdir("c17")
     comps = ["params"] + sorted(measured["lossy"])
@@ -410,4 +456,5 @@ def run(ctx: Ctx):
     # growth of the specification: the optimiser loop itself (Optimizer.tla), whose checkpoint positions this property relies on
     from . import optloop
     optloop.check(ctx, ctx.tier == "quick")
+    adaptor_roundtrip_mixed_dtype(ctx)
     ctx.cov["rule"] = "one case per (configuration, interruption point); all leaves of state_dict and all parameters compared"
